@@ -440,6 +440,16 @@ func runCheck(prop, tier, repo string, verbose bool, only string, timeout int) i
 		}
 		obls = append(obls, vo...)
 	}
+	if tier == "thorough" && (prop == "C08" || prop == "C03") && only == "" {
+		vo, msg := inputHashLinkObligations(lib, repo)
+		if msg != "" {
+			notes["spec vectors: "+msg] = true
+		}
+		for _, o := range vo {
+			o.Prop = []string{prop}
+		}
+		obls = append(obls, vo...)
+	}
 	if tier == "thorough" && (prop == "C05" || prop == "C18") && only == "" {
 		vo, msg := poseidonVectorObligations(lib, repo)
 		if msg != "" {
